@@ -136,6 +136,11 @@ fn fri_committed_trees<F: RichField + Extendable<D>, C: GenericConfig<D, F = F>,
         .coeffs
         .truncate(coeffs.len() >> fri_params.config.rate_bits);
 
+    #[cfg(feature = "verif_hooks")]
+    if let Some((k, delta)) = crate::util::verif_hooks::get().final_poly_delta {
+        let k = k % coeffs.coeffs.len();
+        coeffs.coeffs[k] += F::Extension::from(F::from_canonical_u64(delta));
+    }
     challenger.observe_extension_elements(&coeffs.coeffs);
     // When verifying this proof in a circuit with a different final polynomial length,
     // the challenger needs to observe the full length of the final polynomial.
@@ -159,6 +164,13 @@ pub(crate) fn fri_proof_of_work<
     config: &FriConfig,
 ) -> F {
     let min_leading_zeros = config.proof_of_work_bits + (64 - F::order().bits()) as u32;
+    #[cfg(feature = "verif_hooks")]
+    if let Some(w) = crate::util::verif_hooks::get().pow_witness {
+        let w = F::from_canonical_u64(w);
+        challenger.observe_element(w);
+        let _ = challenger.get_challenge();
+        return w;
+    }
 
     // The easiest implementation would be repeatedly clone our Challenger. With each clone, we'd
     // observe an incrementing PoW witness, then get the PoW response. If it contained sufficient
